@@ -6,17 +6,26 @@ CONSTANTS NP
 VARIABLE c
 BigNs == {100, 1000, 10000, 100000, 200000}
 SqPts == {<<1, 4>>, <<1, 1>>, <<4, 1>>, <<9, 4>>, <<16, 1>>, <<25, 9>>}
+\* n beyond 32 bits (base-10^4 limbs, least significant first): 2^32 + 1, 5e9, the largest n whose C(n, 2) fits in 64 bits
+\* (6074001000) and its successor, 2^33 + 12345
+HugeNs == {<<7297, 9496, 42>>, <<0, 0, 50>>, <<1000, 7400, 60>>, <<1001, 7400, 60>>, <<6937, 8994, 85>>}
 Init == \/ \E n \in 0..NP : c = [fam |-> "pascal", n |-> n]
+        \/ \E nB \in HugeNs, k \in 0..3, sym \in {TRUE, FALSE} : c = [fam |-> "hugen", nB |-> nB, k |-> k, sym |-> sym]
         \/ \E n \in BigNs, k \in 0..32 : c = [fam |-> "bign", n |-> n, k |-> k]
         \/ \E x \in SqPts, h \in {0 - 4, 0 - 2, 0 - 1, 1, 2, 4, 6}, sh \in {0 - 1, 0, 2} : c = [fam |-> "boxcox", x |-> x, h |-> h, sh |-> sh]
 Next == UNCHANGED c
 Spec == Init /\ [][Next]_c
 \* Pascal's rule and symmetry hold by construction of the row; the multiplicative formula agrees with it
 Inv_Symmetry == c.fam = "pascal" => LET r == Pascal(c.n) IN \A k \in 1..(c.n + 1) : r[k] = r[c.n + 2 - k]
+\* the big-n formula agrees with the small-n one where both apply (n = 100000 as limbs <<0, 10>>), and with n (n - 1) / 2
+Inv_BigAgrees == c.fam = "hugen" => /\ Trim(BinomMulBig(<<0, 10>>, c.k)) = Trim(BinomMul(100000, c.k))
+                                    /\ (c.k = 2 => BMulSmall(BinomMulBig(c.nB, 2), 2) = BMul(c.nB, BSubSmall(c.nB, 1)))
 Inv_MulAgrees == (c.fam = "pascal" /\ c.n <= 30) => LET r == Pascal(c.n) IN \A k \in 0..c.n : Trim(BinomMul(c.n, k)) = Trim(r[k + 1])
 Emit == CASE c.fam = "pascal" -> PrintT(<<"CASE", ToJson([fam |-> "pascal", n |-> c.n, row |-> Pascal(c.n)])>>)
           [] c.fam = "bign" -> LET b == BinomMul(c.n, c.k) IN
                                PrintT(<<"CASE", ToJson([fam |-> "bign", n |-> c.n, k |-> c.k, v |-> b, fits |-> Fits64(b)])>>)
+          [] c.fam = "hugen" -> LET b == BinomMulBig(c.nB, c.k) IN
+                               PrintT(<<"CASE", ToJson([fam |-> "hugen", nB |-> c.nB, k |-> c.k, sym |-> c.sym, v |-> b, fits |-> Fits64(b)])>>)
           [] c.fam = "boxcox" ->
                \* the data point is x - shift so that x + shift... the transform sees x: the point passed is (x - sh), shift sh
                PrintT(<<"CASE", ToJson([fam |-> "boxcox", x |-> RJ(c.x), h |-> c.h, sh |-> c.sh, exp |-> RJ(BoxCoxSpec(c.x, c.h))])>>)
